@@ -71,6 +71,20 @@ class ConstEval:
             r = self.prog.resolve(m, e.id)
             return self._resolved(r, e.id)
         if isinstance(e, ast.Attribute):
+            if isinstance(e.value, ast.Name) and e.value.id in ('self', 'cls') and env.get('__class__') is not None:
+                # a class-level constant read through the instance: only when no method stores an instance attribute of that name
+                ci = env['__class__']
+                found = self.prog.lookup_class_attr(ci, e.attr)
+                if found is not None:
+                    shadowed = False
+                    for c2 in self.prog.mro(ci) + self.prog.subclasses(ci):
+                        for fn2 in getattr(c2, 'methods', {}).values():
+                            for n2 in ast.walk(fn2.node):
+                                if isinstance(n2, ast.Attribute) and n2.attr == e.attr and isinstance(n2.ctx, (ast.Store, ast.Del)):
+                                    shadowed = True
+                    if not shadowed:
+                        return self.eval(found[0].module, found[1], {k: v for k, v in env.items() if k == '__class__'})
+                raise Unknown(ast.unparse(e))
             r = self.prog.resolve_expr(m, e)
             if r[0] == 'constattr':
                 base = self.eval(r[1], r[2])
